@@ -335,7 +335,7 @@ Proof.
       destruct (rd_block_into t m h match bl with [] => (ARCHIVE_EOF, 0, r_off (rd h)) | b :: _ => b end)
         as [| |s1 h1] eqn:E; try discriminate.
       apply block_into_inv in E; [|exact Hi].
-      destruct (s1 =? ARCHIVE_EOF); [inversion H; subst; exact E|].
+      destruct ((s1 =? ARCHIVE_EOF) && (r_off (rd h1) <=? r_out (rd h1))); [inversion H; subst; exact E|].
       destruct (s1 <? ARCHIVE_OK); [inversion H; subst; exact E|].
       destruct (r_off (rd h1) <? r_out (rd h1)); [inversion H; subst; exact E|].
       destruct (rd_pad_copy h1 s got) as [[h2 s2] g2] eqn:Ep.
@@ -801,7 +801,7 @@ Proof.
       destruct (rd_block_into t m h match bl with [] => (ARCHIVE_EOF, 0, r_off (rd h)) | b :: _ => b end)
         as [| |s1 h1] eqn:E; try discriminate.
       apply block_into_alive in E; [|exact Hi].
-      destruct (s1 =? ARCHIVE_EOF); [inversion H; subst; exact E|].
+      destruct ((s1 =? ARCHIVE_EOF) && (r_off (rd h1) <=? r_out (rd h1))); [inversion H; subst; exact E|].
       destruct (s1 <? ARCHIVE_OK); [inversion H; subst; exact E|].
       destruct (r_off (rd h1) <? r_out (rd h1)); [inversion H; subst; exact E|].
       destruct (rd_pad_copy h1 s got) as [[h2 s2] g2] eqn:Ep.
@@ -1058,7 +1058,7 @@ Proof.
       destruct (rd_block_into t m h match bl with [] => (ARCHIVE_EOF, 0, r_off (rd h)) | b :: _ => b end)
         as [| |s1 h1] eqn:E; try discriminate.
       apply block_into_frame in E.
-      destruct (s1 =? ARCHIVE_EOF); [inversion H; subst; exact E|].
+      destruct ((s1 =? ARCHIVE_EOF) && (r_off (rd h1) <=? r_out (rd h1))); [inversion H; subst; exact E|].
       destruct (s1 <? ARCHIVE_OK); [inversion H; subst; exact E|].
       destruct (r_off (rd h1) <? r_out (rd h1)); [inversion H; subst; exact E|].
       unfold rd_pad_copy in H. apply IH in H.
@@ -1216,7 +1216,7 @@ Proof.
   intros t h r st h' Ha H. unfold wr_finish_entry in H. apply with_check_ret in H.
   destruct H as [[_ Hh]|[_ [_ Hb]]].
   - subst. eapply w_frame; [exact Ha|apply frame_fatal].
-  - inversion Hb. subst. eapply w_move; eauto. right. right. left. reflexivity.
+  - inversion Hb. subst. apply (w_move h); [exact Ha|reflexivity|reflexivity|reflexivity|reflexivity|right; right; left; reflexivity].
 Qed.
 
 Lemma wr_header_alive : forall t h a b c st h', w_alive h -> wr_header t h a b c = RRet st h' -> w_alive h'.
@@ -1229,7 +1229,7 @@ Proof.
     unfold bind in Hb. destruct (wr_finish_entry t h a) as [| |s1 h1] eqn:E; try discriminate.
     apply wr_finish_entry_alive in E; [|exact Ha].
     assert (F : w_alive (set_state h1 ARCHIVE_STATE_FATAL)) by (eapply w_frame; [exact E|apply frame_fatal]).
-    assert (G : w_alive (set_state h1 ARCHIVE_STATE_DATA)) by (eapply w_move; eauto; right; right; right; reflexivity).
+    assert (G : w_alive (set_state h1 ARCHIVE_STATE_DATA)) by (apply (w_move h1); [exact E|reflexivity|reflexivity|reflexivity|reflexivity|right; right; right; reflexivity]).
     destruct (s1 =? ARCHIVE_FATAL); [inversion Hb; subst; exact F|].
     destruct ((s1 <? ARCHIVE_OK) && negb (s1 =? ARCHIVE_WARN)); [inversion Hb; subst; exact E|].
     destruct (b =? ARCHIVE_FAILED); [inversion Hb; subst; exact E|].
@@ -1381,4 +1381,184 @@ Proof.
     + intro H0. exfalso. rewrite Hm in H0. vm_compute in H0. discriminate.
     + unfold wbal in Hb. destruct (w_filter (wr h) =? 1)%N; lia.
   - split; [intros _; split; assumption|lia].
+Qed.
+
+(* ------------------------------------------------------------------ disk writer: once the handle is
+   gone no fix-up is left unapplied/unreleased and no file is left open - from every state, for every
+   table (no condition on the masks is needed) *)
+Definition d_alive (h : handle) : Prop :=
+  hmagic h = WDM /\ valid_state (hstate h) /\
+  (dw_fd h = true -> hstate h = ARCHIVE_STATE_DATA \/ hstate h = ARCHIVE_STATE_FATAL).
+Definition d_released (h : handle) : Prop := hmagic h = 0%N /\ fixups h = 0%N /\ dw_fd h = false.
+Definition DP (h : handle) : Prop := d_alive h \/ d_released h.
+
+Lemma d_frame : forall h h', d_alive h -> frame h h' -> d_alive h'.
+Proof.
+  intros h h' [Hm [Hv Hj]] [A [_ [_ [D C]]]]. unfold d_alive. rewrite A, D. split; [exact Hm|]. split.
+  - destruct C as [C|C]; rewrite C; [exact Hv|apply valid_fatal].
+  - intro Hf. destruct C as [C|C]; rewrite C; [apply Hj; exact Hf|right; reflexivity].
+Qed.
+
+Lemma d_released_frame : forall h h', d_released h -> frame h h' -> d_released h'.
+Proof. intros h h' [A [B C]] [F1 [_ [F3 [F4 _]]]]. unfold d_released. rewrite F1, F3, F4. tauto. Qed.
+
+Lemma header_only : forall s, valid_state s -> has_bit s ARCHIVE_STATE_HEADER = true -> s = ARCHIVE_STATE_HEADER.
+Proof.
+  intros s Hv Hb. unfold valid_state, all_states in Hv. simpl in Hv.
+  destruct Hv as [H|[H|[H|[H|[H|[H|[]]]]]]]; subst s; try reflexivity; vm_compute in Hb; discriminate.
+Qed.
+
+Lemma header_ne_data_fatal : ARCHIVE_STATE_HEADER <> ARCHIVE_STATE_DATA /\ ARCHIVE_STATE_HEADER <> ARCHIVE_STATE_FATAL.
+Proof. split; intro H; vm_compute in H; discriminate. Qed.
+
+(* finish_entry: the result is a sane disk writer that has no file open unless the call was refused
+   or had nothing to do *)
+Lemma dw_finish_entry_alive : forall t h r e st h', d_alive h -> dw_finish_entry t h r e = RRet st h' ->
+  d_alive h' /\ (hstate h' <> ARCHIVE_STATE_FATAL -> dw_fd h' = false) /\ fixups h' = fixups h.
+Proof.
+  intros t h r e st h' Ha H. unfold dw_finish_entry in H. apply with_check_ret in H.
+  destruct H as [[_ Hh]|[_ [_ Hb]]].
+  - subst. split; [eapply d_frame; [exact Ha|apply frame_fatal]|]. split; [intro Hx; exfalso; apply Hx; reflexivity|reflexivity].
+  - destruct Ha as [Hm [Hv Hj]]. destruct (has_bit (hstate h) ARCHIVE_STATE_HEADER) eqn:Eh.
+    + inversion Hb. subst. split; [split; [exact Hm|split; [exact Hv|exact Hj]]|]. split; [|reflexivity].
+      intros _. destruct (dw_fd h') eqn:Ef; [|reflexivity]. exfalso.
+      pose proof (header_only _ Hv Eh) as Hs. destruct header_ne_data_fatal as [N1 N2].
+      destruct (Hj eq_refl) as [Hx|Hx]; rewrite Hs in Hx; [apply N1|apply N2]; exact Hx.
+    + destruct e; inversion Hb; subst; (split; [|split; [intros _; reflexivity|reflexivity]]).
+      * unfold d_alive. simpl. split; [exact Hm|]. split; [exact Hv|]. discriminate.
+      * unfold d_alive. simpl. split; [exact Hm|]. split; [apply valid_header|]. discriminate.
+Qed.
+
+Lemma dw_header_alive : forall t h a b c d e f st h', d_alive h -> dw_header t h a b c d e f = RRet st h' -> d_alive h'.
+Proof.
+  intros t h a b c d e f st h' Ha H. unfold dw_header in H. apply with_check_ret in H.
+  destruct H as [[_ Hh]|[_ [_ Hb]]].
+  - subst. eapply d_frame; [exact Ha|apply frame_fatal].
+  - assert (Hbody : forall h1 st h', d_alive h1 ->
+      (if c then RRet d (set_fd h1 false)
+       else RRet d (if ARCHIVE_WARN <=? d
+                    then set_state (set_fd (if e then set_fixups (set_fd h1 false) (fixups (set_fd h1 false) + 1) else set_fd h1 false) f) ARCHIVE_STATE_DATA
+                    else if e then set_fixups (set_fd h1 false) (fixups (set_fd h1 false) + 1) else set_fd h1 false)) = RRet st h' ->
+      d_alive h').
+    { intros h1 st0 h0 [Hm1 [Hv1 _]] Hc. destruct c.
+      - inversion Hc. unfold d_alive. simpl. split; [exact Hm1|]. split; [exact Hv1|]. discriminate.
+      - destruct (ARCHIVE_WARN <=? d); inversion Hc; destruct e; unfold d_alive; simpl;
+          (split; [exact Hm1|]); (split; [first [apply valid_data|exact Hv1]|]); first [intros _; left; reflexivity|discriminate]. }
+    destruct (has_bit (hstate h) ARCHIVE_STATE_DATA).
+    + unfold bind in Hb. destruct (dw_finish_entry t h a b) as [| |s1 h1] eqn:E; try discriminate.
+      apply dw_finish_entry_alive in E; [|exact Ha]. destruct E as [E _].
+      destruct (s1 =? ARCHIVE_FATAL); [inversion Hb; subst; exact E|]. eapply Hbody; eauto.
+    + eapply Hbody; eauto.
+Qed.
+
+Lemma dw_close_alive : forall t h r e st h', d_alive h -> dw_close t h r e = RRet st h' ->
+  d_alive h' /\ (hstate h' <> ARCHIVE_STATE_FATAL -> fixups h' = 0%N /\ dw_fd h' = false).
+Proof.
+  intros t h r e st h' Ha H. unfold dw_close in H. apply with_check_ret in H.
+  destruct H as [[_ Hh]|[_ [_ Hb]]].
+  - subst. split; [eapply d_frame; [exact Ha|apply frame_fatal]|]. intro Hx; exfalso; apply Hx; reflexivity.
+  - unfold bind in Hb. destruct (dw_finish_entry t h r e) as [| |s1 h1] eqn:E; try discriminate.
+    apply dw_finish_entry_alive in E; [|exact Ha]. destruct E as [[Hm [Hv Hj]] [Hf _]].
+    inversion Hb. subst. split.
+    + unfold d_alive. simpl. split; [exact Hm|]. split; [exact Hv|exact Hj].
+    + simpl. intro Hx. split; [reflexivity|apply Hf; exact Hx].
+Qed.
+
+Lemma dw_free_DP : forall t h r e st h', d_alive h -> dw_free t h r e = RRet st h' -> DP h'.
+Proof.
+  intros t h r e st h' Ha H. unfold dw_free in H. apply with_check_ret in H.
+  destruct H as [[_ Hh]|[_ [_ Hb]]].
+  - subst. left. eapply d_frame; [exact Ha|apply frame_fatal].
+  - right. unfold bind in Hb. destruct (dw_close t h r e) as [| |s1 h1] eqn:E; try discriminate.
+    apply dw_close_alive in E; [|exact Ha]. destruct E as [_ Hrel].
+    inversion Hb. subst. unfold d_released, kill.
+    destruct (hstate h1 =? ARCHIVE_STATE_FATAL)%N eqn:Ef; simpl.
+    + split; [reflexivity|split; reflexivity].
+    + apply N.eqb_neq in Ef. destruct (Hrel Ef) as [A B]. split; [reflexivity|split; assumption].
+Qed.
+
+Lemma magic_WDM_ne : RM <> WDM /\ WM <> WDM /\ RDM <> WDM /\ ARCHIVE_MATCH_MAGIC <> WDM.
+Proof. repeat split; intro H; vm_compute in H; discriminate. Qed.
+
+Lemma new_write_disk_alive : d_alive new_write_disk.
+Proof. unfold d_alive, new_write_disk. simpl. split; [reflexivity|]. split; [apply valid_header|discriminate]. Qed.
+
+Lemma step_DP : forall t h o st h', DP h -> step t h o = RRet st h' -> DP h'.
+Proof.
+  intros t h o st h' [Ha|Hr] H.
+  - destruct (magic_WDM_ne) as [N1 [N2 [N3 N4]]]. pose proof Ha as [Hm _].
+    assert (Hfor : foreign_to WDM o -> DP h').
+    { intro Hf. left. eapply d_frame; [exact Ha|]. eapply (step_frame t h o st h' WDM); [left; split; assumption|exact H]. }
+    destruct o; try (apply Hfor; unfold foreign_to; simpl; first [exact I|assumption]); simpl in H.
+    + left. eapply dw_header_alive; eauto.
+    + left. unfold dw_data in H. eapply d_frame; [exact Ha|]. eapply wc_frame; [|exact H].
+      intros s0 h0 Hb. inversion Hb. apply frame_refl.
+    + left. unfold dw_data_block in H. eapply d_frame; [exact Ha|]. eapply wc_frame; [|exact H].
+      intros s0 h0 Hb. inversion Hb. apply frame_refl.
+    + left. eapply dw_finish_entry_alive in H; [tauto|exact Ha].
+    + left. eapply dw_close_alive in H; [tauto|exact Ha].
+    + eapply dw_free_DP; eauto.
+  - right. pose proof Hr as [Hm _]. eapply d_released_frame; [exact Hr|].
+    eapply (step_frame t h o st h' WDM); [right; exact Hm|exact H].
+Qed.
+
+Lemma run_DP : forall t ops h, DP h -> Forall (fun x : op * Z * handle => DP (snd x)) (run_ops t h ops).
+Proof.
+  intros t ops. induction ops as [|o r IH]; intros h Hp; simpl; [constructor|].
+  destruct (step t h o) as [| |st h'] eqn:E.
+  - constructor; [exact Hp|constructor].
+  - constructor; [exact Hp|constructor].
+  - pose proof (step_DP t h o st h' Hp E) as Hp'. constructor; [exact Hp'|apply IH; exact Hp'].
+Qed.
+
+Theorem disk_writer_releases_everything : forall t ops,
+  Forall (fun x : op * Z * handle => let h := snd x in hmagic h = 0%N -> fixups h = 0%N /\ dw_fd h = false)
+         (run_ops t new_write_disk ops).
+Proof.
+  intros t ops. pose proof (run_DP t ops new_write_disk (or_introl new_write_disk_alive)) as H.
+  eapply Forall_impl; [|exact H]. intros [[o st] h] Hp. simpl in *. destruct Hp as [[Hm _]|[_ [A B]]].
+  - intro H0. exfalso. rewrite Hm in H0. vm_compute in H0. discriminate.
+  - intros _. split; assumption.
+Qed.
+
+(* free is accepted in every state and ends the handle - writer, disk writer *)
+Theorem write_free_accepted : forall t h a b c d,
+  site_accepts_all t ("_archive_write_free"%string, WM) = true ->
+  site_accepts_all t ("_archive_write_close"%string, WM) = true ->
+  hmagic h = WM -> valid_state (hstate h) ->
+  exists st h1, wr_free t h a b c d = RRet st h1 /\ hmagic h1 = 0%N.
+Proof.
+  intros t h a b c d Hf Hc Hm Hv. unfold wr_free. rewrite (wc_accepted _ _ _ _ _ Hf Hm WM_is_handle Hv).
+  destruct (negb (hstate h =? ARCHIVE_STATE_FATAL)%N).
+  - destruct (write_close_accepted t h a b c Hc Hm Hv) as [st [h1 [E _]]]. rewrite E. simpl.
+    eexists. eexists. split; reflexivity.
+  - destruct (wr_filters_close h c) as [r1 h1]. eexists. eexists. split; reflexivity.
+Qed.
+
+(* with its site in the table, a checked call on a live handle always answers *)
+Lemma wc_total : forall t f m h body mask, site_mask t f m = Some mask -> is_handle_magic (hmagic h) = true ->
+  (exists st h', body h = RRet st h') -> exists st h', with_check t f m h body = RRet st h'.
+Proof.
+  intros t f m h body mask Hs Hh [st [h' Hb]]. unfold with_check. rewrite Hs. unfold check_magic. rewrite Hh. simpl.
+  destruct (negb (hmagic h =? m)%N); [eexists; eexists; reflexivity|].
+  destruct (N.land (hstate h) mask =? 0)%N; simpl; [eexists; eexists; reflexivity|].
+  rewrite Hb. eexists; eexists; reflexivity.
+Qed.
+
+Theorem disk_write_free_accepted : forall t h r e,
+  site_accepts_all t ("_archive_write_disk_free"%string, WDM) = true ->
+  (exists m1, site_mask t "_archive_write_disk_close" WDM = Some m1) ->
+  (exists m2, site_mask t "_archive_write_disk_finish_entry" WDM = Some m2) ->
+  hmagic h = WDM -> valid_state (hstate h) ->
+  exists st h1, dw_free t h r e = RRet st h1 /\ hmagic h1 = 0%N.
+Proof.
+  intros t h r e Hf [m1 H1] [m2 H2] Hm Hv. unfold dw_free. rewrite (wc_accepted _ _ _ _ _ Hf Hm WDM_is_handle Hv).
+  assert (Hh : is_handle_magic (hmagic h) = true) by (rewrite Hm; apply WDM_is_handle).
+  assert (Hfin : exists st h', dw_finish_entry t h r e = RRet st h').
+  { unfold dw_finish_entry. eapply wc_total; eauto.
+    destruct (has_bit (hstate h) ARCHIVE_STATE_HEADER); [eexists; eexists; reflexivity|].
+    destruct e; eexists; eexists; reflexivity. }
+  assert (Hcl : exists st h', dw_close t h r e = RRet st h').
+  { unfold dw_close. eapply wc_total; eauto. destruct Hfin as [s1 [h1 E]]. rewrite E. simpl. eexists; eexists; reflexivity. }
+  destruct Hcl as [s1 [h1 E]]. rewrite E. simpl. eexists. eexists. split; reflexivity.
 Qed.
